@@ -10,6 +10,10 @@ import (
 
 	corev1 "k8s.io/api/core/v1"
 	"k8s.io/apimachinery/pkg/api/resource"
+	metav1 "k8s.io/apimachinery/pkg/apis/meta/v1"
+	"k8s.io/utils/ptr"
+
+	slov1alpha1 "github.com/koordinator-sh/koordinator/apis/slo/v1alpha1"
 
 	apiext "github.com/koordinator-sh/koordinator/apis/extension"
 	runtimeapi "github.com/koordinator-sh/koordinator/apis/runtime/v1alpha1"
@@ -146,16 +150,90 @@ func TestVerifC14(t *testing.T) {
 		}
 		hasSpec := !r.Chance(1, 10)
 		viaAnnotation := r.Bool()
-		cfs := !r.Chance(1, 6)
-		pct := int64(-1)
-		if r.Chance(1, 2) {
-			pct = int64(r.Range(50, 300))
-		}
 
+		// ---- history of rule callbacks on ONE plugin instance, then the hook calls ----
 		p := newPlugin()
-		p.rule.UpdateCFSQuotaEnabled(cfs)
-		if pct >= 0 {
-			p.rule.UpdateCPUNormalizationRatio(float64(pct) / 100)
+		lastRatio := int64(-100) // last validly configured ratio in hundredths; -100 = none configured
+		lastCFS := true
+		nEv := r.Range(0, 5)
+		for e := 0; e < nEv; e++ {
+			switch r.Intn(7) {
+			case 0, 1, 2: // node with a valid ratio annotation; mostly >= 0.02 away from the last one, sometimes adjacent
+				pct := int64(r.Range(50, 300))
+				if lastRatio > 0 && r.Chance(1, 4) {
+					pct = lastRatio + int64(r.Range(-2, 2))
+					if pct <= 0 {
+						pct = 1
+					}
+				}
+				node := &corev1.Node{ObjectMeta: metav1.ObjectMeta{Name: "n", Annotations: map[string]string{
+					apiext.AnnotationCPUNormalizationRatio: fmt.Sprintf("%d.%02d", pct/100, pct%100)}}}
+				upd, err := p.parseRuleForNodeMeta(node)
+				h.Op("rule node %d", pct)
+				if err != nil {
+					h.Obs("err")
+				} else {
+					h.Obs("upd %d", vB(upd))
+				}
+				lastRatio = pct
+				h.Tag("ev:ratio")
+			case 3: // annotation removed
+				node := &corev1.Node{ObjectMeta: metav1.ObjectMeta{Name: "n"}}
+				if r.Bool() {
+					node.Annotations = map[string]string{"other": "x"}
+				}
+				upd, err := p.parseRuleForNodeMeta(node)
+				h.Op("rule node -100")
+				if err != nil {
+					h.Obs("err")
+				} else {
+					h.Obs("upd %d", vB(upd))
+				}
+				lastRatio = -100
+				h.Tag("ev:ratio-removed")
+			case 4: // invalid annotation: the callback fails and the rule keeps its value
+				bad := []string{"abc", "0", "-1.5", ""}[r.Intn(4)]
+				node := &corev1.Node{ObjectMeta: metav1.ObjectMeta{Name: "n", Annotations: map[string]string{
+					apiext.AnnotationCPUNormalizationRatio: bad}}}
+				upd, err := p.parseRuleForNodeMeta(node)
+				h.Op("rule nodebad")
+				if err == nil {
+					h.Obs("noerr %d", vB(upd))
+				} else {
+					h.Obs("upd 0")
+				}
+				h.Tag("ev:ratio-bad")
+			default: // node SLO: CFS quota is disabled iff BE suppress is enabled with the cfsQuota policy
+				enable, cfsPolicy := r.Bool(), r.Bool()
+				spec := &slov1alpha1.NodeSLOSpec{ResourceUsedThresholdWithBE: &slov1alpha1.ResourceThresholdStrategy{
+					Enable: ptr.To(enable), CPUSuppressPolicy: slov1alpha1.CPUSetPolicy}}
+				if cfsPolicy {
+					spec.ResourceUsedThresholdWithBE.CPUSuppressPolicy = slov1alpha1.CPUCfsQuotaPolicy
+				}
+				upd, err := p.parseRuleForNodeSLO(spec)
+				want := !(enable && cfsPolicy)
+				h.Op("rule slo %d", vB(want))
+				if err != nil {
+					h.Obs("err")
+				} else {
+					h.Obs("upd %d", vB(upd))
+				}
+				lastCFS = want
+				h.Tag("ev:slo")
+			}
+		}
+		cfs, effRatio := p.rule.GetCFSQuotaScaleRatio()
+		pct := int64(math.Round(effRatio * 100))
+		// oracle: the ratio in force is the one configured last (up to the code's 0.01 epsilon); none if none configured
+		if cfs != lastCFS {
+			h.Fail("C14:stale-cfs-switch", "cfs enabled=%v but the last node SLO says %v", cfs, lastCFS)
+		}
+		if cfs {
+			if lastRatio < 0 && pct > 0 {
+				h.Fail("C14:stale-ratio", "ratio %d/100 in force although the node configures none", pct)
+			} else if lastRatio > 0 && (pct < lastRatio-1 || pct > lastRatio+1) {
+				h.Fail("C14:stale-ratio", "ratio %d/100 in force but the node configures %d/100", pct, lastRatio)
+			}
 		}
 
 		podCtx := &protocol.PodContext{}
@@ -183,7 +261,8 @@ func TestVerifC14(t *testing.T) {
 		for _, c := range ctrs {
 			flat = append(flat, c.req, c.lim, c.mem)
 		}
-		h.Op("pod %d %d %d %d %d %s", vB(isBE), vB(hasSpec), vB(cfs), pct, nc, vInts(flat))
+		h.Op("pod %d %d %d %s", vB(isBE), vB(hasSpec), nc, vInts(flat))
+		h.Obs("eff %d %d", vB(cfs), pct)
 		h.Tag(fmt.Sprintf("qos:%d", qosKind))
 		h.Tag(fmt.Sprintf("n:%d", nc))
 		if isBE && hasSpec && nc > 0 {
@@ -200,7 +279,7 @@ func TestVerifC14(t *testing.T) {
 			h.Obs("pod %s", s)
 		}
 		scaled := cfs && pct > 100
-		ratio := float64(pct) / 100
+		ratio := effRatio
 		fscale := func(q int64) int64 { return int64(math.Ceil(float64(q) / ratio)) }
 		if !isBE || !hasSpec {
 			if podOK {
@@ -316,5 +395,5 @@ func TestVerifC14(t *testing.T) {
 		h.End()
 	}
 	h.Close("one generated pod (0-12 containers; amounts missing/zero/tiny/clamp-boundary/huge; QoS by label/annotation/none; " +
-		"CFS on/off; ratio absent or 0.5-3.0; spec via annotation JSON or struct); non-trivial = BE pod with a spec and >=1 container; distinct by op line")
+		"0-5 rule callbacks first (node ratio set/changed/adjacent/removed/invalid, node SLO CFS switch) on one plugin instance; spec via annotation JSON or struct); non-trivial = BE pod with a spec and >=1 container; distinct by op line")
 }
